@@ -49,3 +49,32 @@ Fixpoint no_adj_ttext (l : list token) : Prop :=
   | a :: ((b :: _) as r) => (is_ttext a && is_ttext b)%bool = false /\ no_adj_ttext r
   | _ => True
   end.
+
+(* ---- the token stream of a tree under a prefix table ---------------------------------------------------- *)
+Definition tok_attrs (pm : pmap) (attrs : list attr) : list (str * str) :=
+  map (fun a : attr => let '(ns, local, v) := a in (qname pm ns local, v)) (sort_attrs attrs).
+Fixpoint toks_node (pm : pmap) (n : node) : list token :=
+  match n with
+  | Text s => [TText s]
+  | Comment s => [TComment s]
+  | PI t c => [TPI t c]
+  | Tag ns name attrs kids =>
+      let q := qname pm ns name in
+      if null kids then [TStart q (tok_attrs pm attrs) true]
+      else TStart q (tok_attrs pm attrs) false
+           :: (fix go (l : list node) : list token :=
+                 match l with [] => [] | k :: r => toks_node pm k ++ go r end) kids ++ [TEnd q]
+  end.
+Definition toks_kids (pm : pmap) (l : list node) : list token := flat_map (toks_node pm) l.
+
+(* under environment e every element of the subtree opens without changing the environment and its names
+   resolve to the expanded names of the tree (this is what the namespace stage has to establish from C13) *)
+Fixpoint resolves (e : env) (pm : pmap) (n : node) : Prop :=
+  match n with
+  | Tag ns name attrs kids =>
+      open_element e (qname pm ns name) (tok_attrs pm attrs) = Some (e, ns, name, attrs)
+      /\ (fix all (l : list node) : Prop := match l with [] => True | k :: r => resolves e pm k /\ all r end) kids
+  | _ => True
+  end.
+Definition all_resolve (e : env) (pm : pmap) (l : list node) : Prop := Forall (resolves e pm) l.
+Definition tail_ok (rest : list token) : Prop := rest = [] \/ exists q r, rest = TEnd q :: r.
